@@ -386,3 +386,34 @@ def h10(ctx):
 
 
 RULES.append(h10)
+
+
+@rule("H11", doc="a new class's syntactic node refers to its children by their own canonical terms (synify) in every configuration: get_syn_expr, on which b[x := t] is built, depends on it")
+def h11(ctx):
+    crate = ctx.lib()
+    allocs = {b.id for b in crate.fns() if any(s["k"] == "assign" and s["rv"]["k"] == "agg" and s["rv"].get("adt") == C.ECLASS for bi, si, s in b.statements())}
+    C.need("class allocator (constructs an EClass)", sorted(allocs))
+    singles = {b.id for b in crate.fns() if b.id not in allocs and any(c.body is b for c in C.calls_to(crate, b, allocs))}
+    # an allocator front-end that synifies its argument itself (add_syn) puts no obligation on its callers
+    singles = {f for f in singles if not any(c.callee and c.callee.name in ("synify_enode",) for c in crate.bodies[f].calls)}
+    n = 0
+    for b in crate.fns():
+        if b.id in singles or b.id in allocs:
+            continue
+        for c in C.calls_to(crate, b, singles):
+            if c.body is not b:
+                continue
+            for a in c.args[1:]:
+                pl = mir.op_place(a)
+                if pl is None or b.local_ty(pl["l"]) != "L":
+                    continue
+                n += 1
+                r = b.role_of_operand(a)
+                ok = role_mentions_call(r, "synify_enode") or role_mentions_call(r, "synify_app_id")
+                ctx.check(ok, "new-class-node-synified:" + C.fkey(b), "%s hands the allocator a node whose child references were converted to their classes' own canonical terms (synify_enode)" % C.short(b.id),
+                          "%s allocates a class for %s without synify_enode: the stored syntactic node refers to a child by its current (possibly shrunk) slot set instead of all slots of the child's canonical term. get_syn_expr — and with it the default substitution method for b[x := t] — then indexes a missing slot and panics after a child class lost a slot" % (C.short(b.id), role_str(r)[:80]),
+                          where_of(b, c.bb))
+    ctx.floor("allocations of a class for a semantic node", n, 1)
+
+
+RULES.append(h11)
